@@ -345,11 +345,12 @@ func (p *pathState) forkConc(s symInt, cv int64) {
 	panic(pathAbort{kind: abortBound, msg: "more than 64 values while concretising"})
 }
 
-func (p *pathState) addObligation(t *smt.Term) {
+func (p *pathState) addObligation(t *smt.Term, where string) {
 	if t.IsTrue() {
 		return
 	}
 	p.oblig = append(p.oblig, t)
+	p.obligDesc = append(p.obligDesc, where)
 }
 
 func (p *pathState) addInput(v *smt.Term) {
@@ -546,7 +547,14 @@ func (p *pathState) finish() {
 	r, who := p.decide([]*smt.Term{viol})
 	switch r {
 	case smt.Sat:
-		f := Finding{Site: "overflow", Kind: "overflow", Msg: "integer overflow / lossy conversion reachable", Decisions: append([]int(nil), p.decisions...), Choices: copyChoices(p.res.Choices), Solver: who, Inputs: p.lastModel}
+		where := ""
+		for k, o := range p.oblig {
+			if rr, _ := p.decide([]*smt.Term{smt.Not(o)}); rr == smt.Sat {
+				where = p.obligDesc[k]
+				break
+			}
+		}
+		f := Finding{Site: "overflow", Kind: "overflow", Msg: "integer overflow / lossy conversion reachable" + where, Decisions: append([]int(nil), p.decisions...), Choices: copyChoices(p.res.Choices), Solver: who, Inputs: p.lastModel}
 		p.res.Findings = append(p.res.Findings, f)
 		p.res.Outcome = "overflow"
 	case smt.Unknown:
